@@ -65,6 +65,58 @@ func c16concCalls() []helperCall {
 	return out
 }
 
+// C16first: a helper's FIRST use in a process, by two goroutines at once (arg: the index of the helper
+// family, or "count"). Whatever a helper sets up lazily on first use -- a compiled pattern, a table -- is
+// set up here while another call is under way; the ordinary worker has long initialised everything when
+// its pairs run. One fresh process per family; ThreadSanitizer judges the execution, and both calls must
+// return what a later call returns alone.
+func init() {
+	subcommands["C16first"] = func(arg string) {
+		calls := c16concCalls()
+		fam := func(name string) string { return name[:strings.Index(name, "(")] }
+		var firsts []int
+		seen := map[string]bool{}
+		for i, c := range calls {
+			if !seen[fam(c.name)] {
+				seen[fam(c.name)] = true
+				firsts = append(firsts, i)
+			}
+		}
+		if arg == "count" {
+			fmt.Println(len(firsts))
+			return
+		}
+		var k int
+		fmt.Sscan(arg, &k)
+		if k < 0 || k >= len(firsts) {
+			os.Exit(2)
+		}
+		c := calls[firsts[k]]
+		out := newWorkerOut()
+		var res [2]string
+		vrt.Run(nil, 20000, false, func() {
+			var wg sync.WaitGroup
+			wg.Add(2)
+			vrt.Go(func() { defer wg.Done(); res[0] = safeCall(c.f) })
+			vrt.Go(func() { defer wg.Done(); res[1] = safeCall(c.f) })
+			wg.Wait()
+		})
+		vrt.Run(nil, 20000, true, func() {}) // let the detector flush
+		alone := safeCall(c.f)
+		if res[0] != alone || res[1] != alone {
+			out.finding(wFinding{fam(c.name) + "/first-use-by-two-goroutines/returns-something-else", fmt.Sprintf("the first two calls of %s in a process, made concurrently, returned %q and %q; a later call returns %q", c.name, res[0], res[1], alone), []string{c.name, c.name}, nil})
+		}
+		if dir := os.Getenv("VERIF_TSAN_DIR"); dir != "" {
+			if b, err := os.ReadFile(fmt.Sprintf("%s/tsan.%d", dir, os.Getpid())); err == nil {
+				for _, rc := range parseRaces(string(b)) {
+					out.finding(wFinding{fam(c.name) + "/first-use-by-two-goroutines/data-race/" + rc[0], "the first two calls of a helper in a process race with each other (lazily initialised shared state); ThreadSanitizer:\n" + rc[1], []string{c.name, c.name}, nil})
+				}
+			}
+		}
+		out.stats(wStats{Shard: "first:" + arg, Scenarios: 1, Execs: 1, MinBound: -1, Extra: map[string]int{}})
+	}
+}
+
 func init() {
 	subcommands["C16worker"] = func(arg string) {
 		out := newWorkerOut()
